@@ -121,9 +121,13 @@ func Serializer.WritePayloadLength
   ensures old(s.err) == nil ==> s.err == nil && s.buf.n == old(s.buf.n) + 4 && le32(s.buf.data, old(s.buf.n)) == length
   ensures forall i Int :: i < old(s.buf.n) ==> sel(s.buf.data, i) == sel(old(s.buf.data), i)
 
--- nanoseconds since the epoch, saturated to [0, MaxInt64]
+-- nanoseconds since the epoch, saturated to [0, MaxInt64]: instants before the epoch give 0, instants
+-- that do not fit a nanosecond int64 give MaxInt64, everything else is exact
 func TimeToUint64
   ensures 0 <= r0 && r0 <= MaxInt64
+  ensures tsec(value) < 0 ==> r0 == 0
+  ensures tsec(value) >= 0 && tsec(value) * 1000000000 + tnsec(value) <= MaxInt64 ==> r0 == tsec(value) * 1000000000 + tnsec(value)
+  ensures tsec(value) >= 0 && tsec(value) * 1000000000 + tnsec(value) > MaxInt64 ==> r0 == MaxInt64
 
 func Serializer.WriteTime
   requires s != nil
